@@ -21,6 +21,10 @@ def obligations(tier):
     w = "final.correct == success == to_json()['correct'] == AND of f.correct over eligible feedback; never correct with a visible triggered negative"
     obs = [Ob("C02.correct2", F, "correct2", 300, part=str(k), what=w) for k in range(11)]
     obs.append(Ob("C02.correct_fields", F, "correct_fields", 120, what="a suppression naming two fields hides the mistake (and makes the result correct) exactly when both fields match; symbolic int field values"))
+    for k in ((4, 5, 7) if tier == "quick" else (3, 4, 5, 7, 10)):
+        obs.append(Ob("C02.correct_unscored", F, "correct_unscored", 300, part=str(k), what="unscored=True removes a feedback from the score, not from the verdict: a visible triggered mistake keeps the result incorrect (first maker = partition; activate / muted / unscored symbolic)"))
+    for k in ((0, 4, 7) if tier == "quick" else range(11)):
+        obs.append(Ob("C02.correct_again", F, "correct_again", 300, part=str(k), what="history on one report: resolve, then suppress(category) / suppress(label=) / flip muted / add a mistake / add set_correct / nothing, resolve again - each verdict is the one for the report's state at that moment"))
     obs.append(Ob("C02.correct_reach", F, "correct_reach", 60, expect="refute", what="twin: set_correct() outvoted by a visible gently()"))
     if tier == "thorough":
         obs += [Ob("C02.correct3", F, "correct3", 900, part=str(k), what=w + " (N=3)") for k in range(8)]
